@@ -1,10 +1,55 @@
+/-
+  Model of geomdl/helpers.py (span search, multiplicity, A2.2, A2.4, "all degrees"),
+  geomdl/knotvector.py (generate / normalize / check) and linalg.linspace.
+
+  No imports; polymorphic in the number type `K` (core type classes only) so that the same
+  definitions run at `Rat` (driver / correspondence) and are reasoned about over any linearly
+  ordered field (proof files).  Knot vectors are viewed as `Nat → K`; the index guards that Python
+  enforces by raising are carried by the driver / by the hypotheses of the theorems.
+-/
 namespace Geomdl
 section
-variable {K : Type} [Add K] [Sub K] [Mul K] [Div K] [Zero K] [One K]
+variable {K : Type} [Add K] [Sub K] [Mul K] [Div K] [Neg K] [Zero K] [One K] [NatCast K]
+  [LT K] [LE K] [DecidableRel (α := K) (· < ·)] [DecidableRel (α := K) (· ≤ ·)] [DecidableEq K]
+
+def absK (x : K) : K := if x < 0 then -x else x
+
+/-! ### span search (`helpers.find_span_linear`, `helpers.find_span_binsearch`) -/
+
+/-- the `while span < num_ctrlpts and knot_vector[span] <= knot: span += 1` loop, with fuel -/
+def findSpanLinearAux (U : Nat → K) (n : Nat) (u : K) : Nat → Nat → Nat
+  | 0, span => span
+  | fuel+1, span => if span < n ∧ U span ≤ u then findSpanLinearAux U n u fuel (span+1) else span
+
+/-- `helpers.find_span_linear(degree, U, num_ctrlpts, knot)`; `n` is the number of control points -/
+def findSpanLinear (p : Nat) (U : Nat → K) (n : Nat) (u : K) : Nat :=
+  findSpanLinearAux U n u (n + 1) (p + 1) - 1
+
+/-- the `while` loop of `find_span_binsearch`; `none` = fuel exhausted (never for valid input) -/
+def findSpanBinLoop (U : Nat → K) (u : K) : Nat → Nat → Nat → Nat → Option Nat
+  | 0, _, _, _ => none
+  | fuel+1, low, high, mid =>
+    if u < U mid ∨ U (mid+1) ≤ u then
+      let lh : Nat × Nat := if u < U mid then (low, mid) else (mid, high)
+      findSpanBinLoop U u fuel lh.1 lh.2 ((lh.1 + lh.2) / 2)
+    else some mid
+
+/-- `helpers.find_span_binsearch`; the start index `int(round((low+high)/2 + tol))` is
+    `(low+high+1)/2` for every `0 < tol < 1/2` -/
+def findSpanBin (p : Nat) (U : Nat → K) (n : Nat) (u : K) (tol : K) : Option Nat :=
+  if absK (U n - u) ≤ tol then some (n - 1)
+  else findSpanBinLoop U u (n + p + 2) p n ((p + n + 1) / 2)
+
+/-- `helpers.find_multiplicity` -/
+def findMultiplicity (u : K) (U : List K) (tol : K) : Nat :=
+  (U.filter (fun kv => absK (u - kv) ≤ tol)).length
+
+/-! ### A2.2 `helpers.basis_function` -/
 
 def left (U : Nat → K) (span : Nat) (u : K) (j : Nat) : K := u - U (span + 1 - j)
 def right (U : Nat → K) (span : Nat) (u : K) (j : Nat) : K := U (span + j) - u
 
+/-- inner `for r in range(0, j)` loop, carrying `saved`; the list is `N[0..j-1]` -/
 def bfInner (L R : Nat → K) (j : Nat) : Nat → List K → K → List K
   | _, [], saved => [saved]
   | r, n :: ns, saved =>
@@ -15,5 +60,74 @@ def bfStep (L R : Nat → K) (N : List K) (j : Nat) : List K := bfInner L R j 0 
 
 def basisFuns (p : Nat) (U : Nat → K) (span : Nat) (u : K) : List K :=
   (List.range' 1 p).foldl (bfStep (left U span u) (right U span u)) [1]
+
+/-- `helpers.basis_function_all`: `N[j][i] = basisFuns i [j]` for `j ≤ i`, `none` (Python `None`) otherwise -/
+def basisFunAll (p : Nat) (U : Nat → K) (span : Nat) (u : K) : List (List (Option K)) :=
+  (List.range (p+1)).map (fun j => (List.range (p+1)).map (fun i =>
+    if j ≤ i then (basisFuns i U span u)[j]? else none))
+
+/-! ### A2.4 `helpers.basis_function_one` -/
+
+/-- inner `for j in range(0, degree-k+1)` loop of A2.4 over the list `N[1..]`, with zero detection -/
+def bfOneInner (U : Nat → K) (span k : Nat) (u : K) : Nat → List K → K → List K
+  | _, [], _ => []
+  | j, n1 :: ns, saved =>
+      let Uleft := U (span + j + 1)
+      let Uright := U (span + j + k + 1)
+      if n1 = 0 then saved :: bfOneInner U span k u (j+1) ns 0
+      else
+        let temp := n1 / (Uright - Uleft)
+        (saved + (Uright - u) * temp) :: bfOneInner U span k u (j+1) ns ((u - Uleft) * temp)
+
+/-- one level `k` of the triangular table of A2.4; input `N[0..p-k+1]`, output `N[0..p-k]` -/
+def bfOneLevel (U : Nat → K) (span : Nat) (u : K) (N : List K) (k : Nat) : List K :=
+  let n0 := N.headD 0
+  let saved := if n0 = 0 then 0 else ((u - U span) * n0) / (U (span + k) - U span)
+  bfOneInner U span k u 0 N.tail saved
+
+/-- `helpers.basis_function_one(degree, U, span, knot)`; `m` = number of knots -/
+def basisFunOne (p : Nat) (U : Nat → K) (m : Nat) (span : Nat) (u : K) : K :=
+  if (span = 0 ∧ u = U 0) ∨ (span + p + 2 = m ∧ u = U (m - 1)) then 1
+  else if u < U span ∨ U (span + p + 1) ≤ u then 0
+  else
+    let N0 : List K := (List.range (p+1)).map (fun j =>
+      if U (span + j) ≤ u ∧ u < U (span + j + 1) then 1 else 0)
+    ((List.range' 1 p).foldl (bfOneLevel U span u) N0).headD 0
+
+/-! ### `linalg.linspace`, `knotvector.generate/normalize/check` -/
+
+/-- the `num > 1` branch of `linalg.linspace` -/
+def linspaceCore (start stop : K) (num : Nat) : List K :=
+  let delta := stop - start
+  (List.range num).map (fun (x : Nat) => start + (Nat.cast x : K) * delta / (Nat.cast (num - 1) : K))
+
+/-- `linalg.linspace(start, stop, num)` (the 18-decimals print/parse is the identity on exact
+    numbers); `tol` is the literal `10e-8` of the code -/
+def linspace (start stop : K) (num : Nat) (tol : K) : List K :=
+  if absK (start - stop) ≤ tol then [start]
+  else if 1 < num then linspaceCore start stop num else [start]
+
+/-- `knotvector.generate(degree, num_ctrlpts, clamped)` -/
+def knotGenerate (p n : Nat) (clamped : Bool) (tol : K) : List K :=
+  if clamped then
+    List.replicate p 0 ++ linspace (0:K) 1 (n - p + 1) tol ++ List.replicate p 1
+  else
+    linspace (0:K) 1 (p + n + 1) tol
+
+/-- `knotvector.normalize` on exact numbers -/
+def knotNormalize (U : List K) : List K :=
+  let first := U.headD 0
+  let last := U.getLastD 0
+  U.map (fun x => (x - first) / (last - first))
+
+def isSortedB : List K → Bool
+  | [] => true
+  | [_] => true
+  | a :: b :: r => decide (a ≤ b) && isSortedB (b :: r)
+
+/-- `knotvector.check(degree, knot_vector, num_ctrlpts)` -/
+def knotCheck (p : Nat) (U : List K) (n : Nat) : Bool :=
+  decide (U.length = p + n + 1) && isSortedB U
+
 end
 end Geomdl
